@@ -116,7 +116,7 @@ func prodFuncs(c *Ctx, rels ...string) []*ssa.Function {
 func checkC11(c *Ctx, r *Report, tier string) {
 	r.Rule("C11.R1", "no dropped error: no function returns a nil error from the non-nil side of an error test without handing the error on", 1)
 	r.Rule("C11.R2", "a non-blocking notification cannot be lost: where Notify is called with blocking=false on a notificator, every Create(n) on the same owner has a constant n >= 1", 4)
-	r.Rule("C11.R3", "id pairing: the NotificationId placed in a proposal is the id returned by the Create of the same activation, Remove(id) is deferred, the apply side notifies the id parsed from that field, and the value it notifies is the error of the index operation of that path (never a constant on a path that has one)", 12)
+	r.Rule("C11.R3", "id pairing: the NotificationId placed in a proposal is the id returned by the Create of the same activation, Remove(id) is deferred, the apply side notifies the id parsed from that field, and the value it notifies is the error of the index operation of that path (never a constant on a path that has one); ids are fresh random uuids; a channel looked up in the notificator is only used under its mutex", 15)
 	r.Rule("C11.R4", "the dimension check dominates propose and proxy on every vector-carrying Dataset entry point; batch paths forward only the checked subset", 4)
 	r.Rule("C11.R5", "success only from the notification: a proposing function returns a nil error only on the arm that received from its own notification channel; the partition methods return nil only when the received outcome is nil", 8)
 	r.Rule("C11.R6", "batch error map: every failed partition request maps each of its items to the error; results of all workers are merged", 4)
@@ -128,6 +128,8 @@ func checkC11(c *Ctx, r *Report, tier string) {
 	}
 	c11R2(c, r)
 	c11R3(c, r)
+	notificationIdsAreRandom(c, r, "C11.R3")
+	notificatorChannelUnderLock(c, r, "C11.R3")
 	c11R4(c, r)
 	c11R5(c, r)
 	c11R6(c, r)
